@@ -282,11 +282,8 @@ impl ClusterHandler for AdminCommHandler {
             // exchange to complete, then can't accept new ones.
             // `Failsafe::expire` does the actual `remove_pase` call.
             let sess = ctx.exchange().id().session(&mut state.sessions);
-            let expire_sess_id = matches!(
-                sess.get_session_mode(),
-                crate::transport::session::SessionMode::Pase { .. }
-            )
-            .then(|| sess.id());
+            // (The same goes for a CASE session on the fabric being rolled back.)
+            let expire_sess_id = Some(sess.id());
 
             let removed_fabric = state.failsafe.expire(
                 &mut state.fabrics,
@@ -297,6 +294,17 @@ impl ClusterHandler for AdminCommHandler {
                 notify_mdns,
                 notify_change,
             )?;
+
+            // The CASE resumption records of a fabric dropped by the rollback go with it
+            // (its sessions are purged by `FailSafe::expire` itself)
+            #[cfg(feature = "case-resumption")]
+            if let Some(fab_idx) = removed_fabric {
+                state.resumption.remove_for_fabric(fab_idx);
+                ctx.exchange()
+                    .matter()
+                    .transport()
+                    .notify_resumption_dirty();
+            }
 
             ctx.exchange().matter().transport().notify_session_removed();
 
